@@ -53,7 +53,7 @@ def gen(ctx):
         # the compared RULES are run with a measure that ignores the scores' sign problem (Chamberlin-Courant / cost); the
         # comparison measure below may be the signed additive one
         specs = ["greedy:CC_Sat", "greedy:Cost_Sat", "greedy:Cardinality_Sat"]
-    k = rng.choice([2, 2, 3])
+    k = rng.choice([2, 2, 3, 1])  # a comparison of a single rule is a comparison too (C19-r7B: a shortcut that forgot the initial allocation)
     seq = [rng.choice(specs) for _ in range(k)]
     if rng.random() < 0.25:
         seq.append(seq[0])
@@ -108,7 +108,7 @@ def gen_init_cfg(rng, case, p_none=0.35):
                 if tot + case.cost[n] <= case.budget and (not init or rng.random() < 0.4):
                     init.append(n)
                     tot += case.cost[n]
-    return {"init": init, "init_form": rng.choice(["list", "alloc"])}
+    return {"init": init, "init_form": rng.choice(["list", "alloc", "list", "alloc", "tuple", "set", "generator", "iter", "map", "filter"])}
 
 
 def build_rules(case, cfg, built):
@@ -131,6 +131,8 @@ def init_arg(cfg, built):
         from pabutools.rules import BudgetAllocation
 
         return BudgetAllocation(init)
+    if cfg.get("init_form") not in (None, "list"):
+        return core.shape_init(init, cfg["init_form"])  # tuple, set, generator, iter, …: a fresh object per call
     return init
 
 
@@ -151,8 +153,10 @@ def judge(case, cfg, built, fs, ps):
         else:
             out = fn(built.inst, built.prof, core.sat_class(cfg["sat"]), fs, ps, initial_budget_allocation=init)
         fs2, ps2 = build_rules(case, cfg, built)
-        ikw = {} if cfg.get("init") is None else {"initial_budget_allocation": [built.projs[n] for n in cfg["init"]]}
-        singles = [f(built.inst, built.prof, **ikw, **kw) for f, kw in zip(fs2, ps2)]
+        # each rule run alone gets a FRESH object of the same kind as the comparison got (an unordered kind fixes the order of
+        # the initial projects inside the outcome; "unmodified outcome" is judged with that order)
+        singles = [f(built.inst, built.prof, **({} if cfg.get("init") is None else {"initial_budget_allocation": init_arg(cfg, built)}), **kw)
+                   for f, kw in zip(fs2, ps2)]
     except Exception as e:  # noqa: BLE001
         return None, None, [violation(f"comparison raised {e!r}", case, cfg, sig=dict(sig, err=core.err_enum(e)))]
     vs = []
